@@ -331,8 +331,9 @@ pub struct EpCfg {
     pub client_connack_props: rf::Props,
     /// client role v5: receive_max requested in CONNECT / config
     pub tag: &'static str,
-    /// servers: the publish service is a hand-written `Service` whose `ready()` starts failing when the scenario
-    /// calls `fail_readiness()` (termination cause "service readiness error")
+    /// the publish service (servers) / protocol service (clients without router) is a hand-written `Service`
+    /// whose `ready()` starts failing when the scenario calls `fail_readiness()` (termination cause "service
+    /// readiness error")
     pub ready_gate: bool,
 }
 
@@ -1491,7 +1492,11 @@ pub async fn start_v5_client(cfg: &EpCfg) -> Conn {
                 let own = Some(v5::codec::Encoded::Packet(v5::codec::Packet::Disconnect(v5::codec::Disconnect::default().reason_string(Some("ctl".into())))));
                 ctl_service(ctl, logc.clone(), mode, own)
             });
-            let r = client.start_with_control(protocol, control).await;
+            let r = if c.ready_gate {
+                client.start_with_control(ReadyGate { f: protocol, st: new_ready_state() }, control).await
+            } else {
+                client.start_with_control(protocol, control).await
+            };
             format!("{r:?}")
         };
         log.push(Rec::ConnDone(r));
@@ -1610,7 +1615,11 @@ pub async fn start_v3_client(cfg: &EpCfg) -> Conn {
         } else {
             let (logc, mode) = (log.clone(), c.ctl);
             let control = fn_service(move |ctl: Control<TErr>| ctl_service::<v3::codec::Encoded>(ctl, logc.clone(), mode, None));
-            let r = client.start_with_control(protocol, control).await;
+            let r = if c.ready_gate {
+                client.start_with_control(ReadyGate { f: protocol, st: new_ready_state() }, control).await
+            } else {
+                client.start_with_control(protocol, control).await
+            };
             format!("{r:?}")
         };
         log.push(Rec::ConnDone(r));
